@@ -142,6 +142,16 @@ def genLoop (bw : Nat) (r : PRange) : (todo bi pixelX : Nat) → List Run
 /-- `general_process_blocks::<bw, bh, ..>` on a slice of `nblocks` encoded blocks -/
 def procGeneral (bw : Nat) (r : PRange) (nblocks : Nat) : List Run := genLoop bw r nblocks 0 0
 
+/-- the aligned fast path of `process_4x4_blocks_helper` (`range.rows.len() == 4`): full blocks
+`width / 4`, then the partial block of `width - full*4` pixels; `y` is both the output row and
+the row inside the block. -/
+def fast4 (width : Nat) : List Run :=
+  ((List.range (width / 4)).flatMap fun bi =>
+    (List.range 4).map fun y => (⟨y, bi * 4, 4, bi, 0, 0, y⟩ : Run)) ++
+  (if width % 4 ≠ 0 then
+    (List.range 4).map fun y => (⟨y, width / 4 * 4, width - width / 4 * 4, width / 4, 0, 0, y⟩ : Run)
+   else [])
+
 /-- `process_4x4_blocks_helper`.  `fast` = the aligned fast path is available
 (`stride % size_of::<OutPixel>() == 0` and `cast::from_bytes_mut` succeeds). -/
 def proc4 (fast : Bool) (r : PRange) (nblocks : Nat) : List Run :=
@@ -153,15 +163,7 @@ def proc4 (fast : Bool) (r : PRange) (nblocks : Nat) : List Run :=
   let nb' := if handled then nblocks - 1 else nblocks
   let dc := if handled then pixelW else 0
   let dux := if handled then 1 else 0
-  let rest :=
-    if r'.re - r'.rs = 4 ∧ fast then
-      let fullBlocks := r'.width / 4
-      ((List.range fullBlocks).flatMap fun bi =>
-        (List.range 4).map fun y => (⟨y, bi * 4, 4, bi, 0, 0, y⟩ : Run)) ++
-      (if r'.width % 4 ≠ 0 then
-        (List.range 4).map fun y => (⟨y, fullBlocks * 4, r'.width - fullBlocks * 4, fullBlocks, 0, 0, y⟩ : Run)
-       else [])
-    else procGeneral 4 r' nb'
+  let rest := if r'.re - r'.rs = 4 ∧ fast then fast4 r'.width else procGeneral 4 r' nb'
   pre ++ rest.map (Run.shift 0 dc dux 0)
 
 /-- `process_2x1_blocks_helper` (ignores the stride and the row range: one row) -/
